@@ -115,6 +115,10 @@ func (c *Collection) subdocWrite(key string, subdocKey string, cas CAS, value an
 			if errors.As(err, &missingError) && cas == 0 {
 				continue // ...and likewise if what was read has been purged since
 			}
+			if errors.As(err, &missingError) {
+				// purged since it was read: the caller's CAS no longer matches anything
+				return 0, sgbucket.CasMismatchErr{Expected: cas, Actual: 0}
+			}
 			return 0, err
 		}
 		return casOut, nil
